@@ -940,6 +940,60 @@ fn generate(seed: u64, n: u64) -> Vec<String> {
             seqs = next;
         }
     }
+    // port clashes at every position of a requested range (first, middle, last), for each port kind, against each
+    // kind of recorded port: a single clashing port anywhere in the range must refuse the whole add
+    for rec_kind in ["np", "mp", "rp"] {
+        for req_kind in ["np", "mp", "rp"] {
+            for k in 2..=3u64 {
+                for pos in 0..k {
+                    let p = 8010u64;
+                    let first = {
+                        let f = |kind: &str| if kind == rec_kind { p.to_string() } else { "-".to_string() };
+                        format!("add count=1 np={} mp={} rp={} metrics=0 ver=1", f("np"), f("mp"), f("rp"))
+                    };
+                    let (a, b) = (p - pos, p - pos + k - 1);
+                    let second = {
+                        let f = |kind: &str| if kind == req_kind { format!("{a}-{b}") } else { "-".to_string() };
+                        format!("add count={k} np={} mp={} rp={} metrics=0 ver=1", f("np"), f("mp"), f("rp"))
+                    };
+                    lines.push("reset".into());
+                    lines.push(with_faults(&first, &[]));
+                    lines.push(with_faults(&second, &[]));
+                }
+            }
+        }
+    }
+    // the same from a RUNNING base: prefix add + start of every service, then all op sequences up to depth 2 with all
+    // single-fault placements (a stop/remove/upgrade of a running service whose process died needs start; kill; <op>)
+    for nsvc in 1..=2usize {
+        let alpha = alphabet(nsvc, false);
+        let mut prefix = vec![format!("add count={nsvc} np=- mp=- rp=- metrics=0 ver=1")];
+        for i in 0..nsvc {
+            prefix.push(format!("start {i} ct=0"));
+        }
+        let mut seqs: Vec<Vec<String>> = vec![vec![]];
+        for _ in 0..2 {
+            let mut next = vec![];
+            for s in &seqs {
+                for a in &alpha {
+                    let mut t = s.clone();
+                    t.push(a.clone());
+                    next.push(t);
+                }
+            }
+            for s in &next {
+                let mut base = prefix.clone();
+                base.extend(s.iter().cloned());
+                if nsvc == 1 || s.len() < 2 || rng.chance(1, 3) {
+                    expand(&base, &mut rng, 0, &mut lines, 64);
+                } else {
+                    lines.push("reset".into());
+                    lines.extend(base.iter().map(|l| with_faults(l, &[])));
+                }
+            }
+            seqs = next;
+        }
+    }
     // seeded sample: n base histories of 3 (quick) / up to 5 (thorough) ops after the add prefix, 1-3 services,
     // option combinations, all single-fault placements (capped) and a few two-fault placements
     for _ in 0..n {
